@@ -257,6 +257,30 @@ def check(run):
                         {"kind": "flag", "path": "original-unchanged-by-rewriting", "value": unchanged is True,
                          "detail": str(unchanged)})
                     qs.extend(groups.values())
+                # queries on column values inside compounds: rewriting keeps them (equal ones once) and never raises
+                from whoosh import query as _q
+                cond = lambda v: v > 3
+                flags = []
+                for label, mkq, want in (
+                        ("And([ColumnQuery, Term]).normalize() keeps both clauses",
+                         lambda: _q.And([_q.ColumnQuery("num", 1), _q.Term("body", u"a")]).normalize(), 2),
+                        ("Or of one ColumnQuery twice normalizes to it",
+                         lambda: _q.Or([_q.ColumnQuery("num", 1), _q.ColumnQuery("num", 1)]).normalize(), 0),
+                        ("Or of two different ColumnQuery conditions keeps both",
+                         lambda: _q.Or([_q.ColumnQuery("num", 1), _q.ColumnQuery("num", 2), _q.ColumnQuery("num", cond),
+                                        _q.ColumnQuery("num", cond)]).normalize(), 3),
+                        ("ColumnQuery & Term, ColumnQuery | Term, Term - ColumnQuery",
+                         lambda: _q.And([(_q.ColumnQuery("num", 1) & _q.Term("body", u"a")),
+                                         (_q.ColumnQuery("num", 1) | _q.Term("body", u"a")),
+                                         (_q.Term("body", u"a") - _q.ColumnQuery("num", 1))]), 3)):
+                    try:
+                        r = mkq()
+                        n = len(r.subqueries) if hasattr(r, "subqueries") else 0
+                        flags.append({"kind": "flag", "path": label, "value": n == want, "detail": repr(r)[:160]})
+                    except Exception as ex:
+                        flags.append({"kind": "error", "path": label, "err": type(ex).__name__, "msg": str(ex)[:100]})
+                if wi == 0:
+                    qs.append({"q": {"op": "null"}, "obs": flags})
                 cases.append({"idx": idx, "qs": qs})
                 meta.append({"plan": plan, "nseg": len(s.reader().leaf_readers()),
                              "deleted": sum(1 for d in idx["docs"] if not d["live"])})
